@@ -211,6 +211,9 @@ class SchemaValidationContext:
         if not default_input:
             return
 
+        if not is_input_type(input_value.type):
+            return  # already reported, a default value cannot be checked against it
+
         errors: list[tuple[GraphQLError, list[str | int]]] = []
         validate_default_input(
             default_input,
